@@ -2,6 +2,7 @@
 //! singleflight, crash victims).
 use xvcommon::{Args, Report};
 
+mod e_cache;
 mod e_session;
 mod monclient;
 mod recipes;
@@ -14,6 +15,9 @@ fn main() {
     match engine.as_str() {
         "session" => e_session::run(&args, &mut rep),
         "faults" => e_session::run_faults(&args, &mut rep),
+        "cache_seq" => e_cache::run_seq(&args, &mut rep),
+        "cache_fault" => e_cache::run_fault(&args, &mut rep),
+        "cache_conc" => e_cache::run_conc(&args, &mut rep),
         other => {
             eprintln!("unknown engine {other:?}");
             std::process::exit(2);
